@@ -375,6 +375,7 @@ Proof.
   intros H. unfold cancel_order. destruct (get_order s id) as [o|] eqn:Eg; [|exact H].
   destruct (negb (is_open o)) eqn:Eop; [exact H|]. apply negb_false_iff in Eop.
   assert (Eid : o_id o = id) by (destruct H as [(Ho & _) _]; destruct (Ho _ _ Eg); assumption).
+  destruct (if o_ar o && negb (Qzero (filled o)) then check_infos c s (s_loans s) else Ok tt); cbn [lift obind]; [|exact H].
   apply rp_close_as; [exact H | | rewrite Eid; eapply R_was_open; eauto].
   exists o. rewrite Eid. split; [exact Eg | apply same_money_refl].
 Qed.
